@@ -40,7 +40,7 @@ ASSUMPTIONS = [
     "unreadable-file faults are explored in the thorough tier only",
 ]
 BOUNDS = {
-    "quick": {"max_depth": "S: 9 (1 dir) / 6 (2 dirs); L: 8 (2 uris) / 6 (3 uris)", "versions": "A,B,broken", "time_budget_s": 90},
+    "quick": {"max_depth": "S: 11 (1 dir) / 7 (2 dirs); L: 9 (2 uris) / 7 (3 uris)", "versions": "A,B,broken", "time_budget_s": 90},
     "thorough": {"max_depth": "S: 40 (fixpoint sought)/9/6 for 1/2/3 dirs; L: 12/8/6/5/4 for 2/3/4/5/7 uris; groups explored one after the other", "versions": "A,B,broken,unreadable", "time_budget_s": 780},
 }
 READY = True
@@ -77,10 +77,10 @@ def configs(tier):
         S = [(nd, fs, cs, md) for nd in (1, 2, 3) for fs in (True, False) for cs in (-1, 1) for md in (False, True) if nd < 3 or md == (cs == 1)]
         L = [(nu, fs, cs, md) for (nu, cs) in ((2, 1), (3, 1), (3, 2), (4, 2), (5, 4), (7, 4)) for fs in (True, False) for md in (False, True) if nu < 5 or (fs and not md)]
     for nd, fs, cs, md in S:
-        dep = ({1: 9, 2: 6} if tier == "quick" else {1: 40, 2: 9, 3: 6})[nd]
+        dep = ({1: 11, 2: 7} if tier == "quick" else {1: 40, 2: 9, 3: 6})[nd]
         out.append({"mode": "S", "dirs": nd, "uris": 1, "fs_checks": fs, "size": cs, "moddir": md, "unreadable": tier != "quick", "max_depth": dep})
     for nu, fs, cs, md in L:
-        dep = ({2: 8, 3: 6} if tier == "quick" else {2: 12, 3: 8, 4: 6, 5: 5, 7: 4})[nu]
+        dep = ({2: 9, 3: 7} if tier == "quick" else {2: 12, 3: 8, 4: 6, 5: 5, 7: 4})[nu]
         out.append({"mode": "L", "dirs": 1, "uris": nu, "fs_checks": fs, "size": cs, "moddir": md, "unreadable": False, "max_depth": dep})
     return out
 
